@@ -20,6 +20,10 @@ CHECKS = {
    technique="differential property-based testing: interpreter (source and saved .ao) versus gcc-linked C executable over generated programs x levels",
    text="Generated programs, including ones ending by uncaught exception, failed assertion, never or error, run at -Q{0,1,2,3,5,9} under -Ginterp (from .as and from the saved .ao) and as executable; normalised stdout, exit class and the Unhandled Exception text must agree.",
    note="Only tool-emitted text is normalised away.", design="4 C03"),
+ "C05": dict(level="exploration", engine="hypothesis-subprocess",
+   technique="round-trip and differential property-based testing: generated programs with extreme constants through .ao / .fm / .al and library/client splits, byte comparison after the two stated normalisations",
+   text="C, FOAM text and Lisp generated from the saved .ao and .fm must equal those from the source (input-file line deleted, wide-integer re-expressions compared by value); .fm re-save is byte-identical; the saved .ao behaves like the source; a library/client split (also through an archive, member first/middle/last) behaves like the single unit on interpreter and executable.",
+   note="K5 (omitted casts on the .fm route) is a listed known finding matched exactly.", design="4 C05"),
  "C06": dict(level="exploration", engine="hypothesis-subprocess",
    technique="property-based testing with a catalogue of single-fault mutants: each generated well-typed program must be accepted, each guaranteed-illegal mutant (planted at enumerated sites) must be rejected with a positioned error and no output file",
    text="Well-typed generated programs are compiled with -Fao -Fc -Ffm -Flsp and must be accepted with all outputs; nine catalogue faults, illegal by construction (nominal domain no operation accepts, fresh identifiers), are planted in the main block and in function bodies and must be rejected with exit != 0, a positioned (Error) line and no output files.",
@@ -107,7 +111,7 @@ def main():
             {"name": "rapidcheck-stateful", "path": "harness/containers_rc.cc", "serves_properties": ["C10", "C20"], "kind_free_text": "rapidcheck-generated operation histories against reference models"},
             {"name": "exhaustive-loop+hypothesis", "path": "harness/xfloat_check.cc", "serves_properties": ["C19"], "kind_free_text": "exhaustive bit-pattern loops; Hypothesis-generated literals through the compiler"},
             {"name": "fault-enumeration", "path": "vt/props/c17.py", "serves_properties": ["C17", "C18"], "kind_free_text": "enumerated damage / write-fault points applied to real compiler runs"},
-            {"name": "hypothesis-subprocess", "path": "vt/", "serves_properties": ["C01", "C02", "C03", "C06", "C07", "C08", "C09", "C12", "C13"], "kind_free_text": "Hypothesis-generated programs/inputs driving the compiler under test as a subprocess"},
+            {"name": "hypothesis-subprocess", "path": "vt/", "serves_properties": ["C01", "C02", "C03", "C05", "C06", "C07", "C08", "C09", "C12", "C13"], "kind_free_text": "Hypothesis-generated programs/inputs driving the compiler under test as a subprocess"},
         ],
         "checks": checks,
         "not_applicable": na,
